@@ -10,7 +10,7 @@ from __future__ import annotations
 import ast
 
 from ..cfg import CFG, facts_at
-from ..core import AnalysisError, FuncNode, call_name, calls_in, const_str, decorators, last_attr, src
+from ..core import AnalysisError, FuncNode, call_name, calls_in, const_str, decorator_call, decorators, kwarg, last_attr, src, stmt_of
 from ..lifecycle import SCHED, Lifecycle
 
 EXPLANATION = (
@@ -153,3 +153,68 @@ def run(ctx):
     tn = const_str(repo.class_attr(m, ev, "type_name"))
     qc = const_str(repo.mod("redun/backends/db/query.py").module_consts().get("REDUN_ERROR_TYPE_NAME"))
     r4.check(tn is not None and tn == qc, f"{m.rel}:ErrorValue.type_name", f"ErrorValue.type_name {tn!r} != REDUN_ERROR_TYPE_NAME {qc!r}", m.rel, ev.lineno)
+
+    # ---- C12.5 failures never travel as the (cacheable) result of a task -------------------------
+    # A failure that is returned as data makes the returning task DONE; if that task is cached in the backend, a later execution replays
+    # the failure from the cache instead of re-running the failed work.
+    r5 = ctx.rule("C12.5", "no backend-cacheable task returns a failure as data", floor=1)
+    # producers: Scheduler methods that return {"error": <...>.error, ...}
+    producers = {}
+    for q, fn in m.funcs.items():
+        if q.startswith("Scheduler.") and q.count(".") == 1:
+            for n in ast.walk(fn):
+                if isinstance(n, ast.Return) and isinstance(n.value, ast.Dict) and any(const_str(k) == "error" for k in n.value.keys if k is not None):
+                    producers[q.split(".")[1]] = n
+    if not producers:
+        raise AnalysisError("no Scheduler method returning an {'error': ...} result found (anchor vanished)", "Scheduler.extend_run")
+    # consumers: task functions (decorated @task) that call a producer on a scheduler object and let the dict reach their return value
+    ntask = 0
+    for q, fn in m.funcs.items():
+        if "." in q or not any(d.split(".")[-1] == "task" for d in decorators(fn)):
+            continue
+        ntask += 1
+        for c in calls_in(fn):
+            if isinstance(c.func, ast.Attribute) and c.func.attr in producers:
+                st = stmt_of(m, c)
+                var = st.targets[0].id if isinstance(st, ast.Assign) and isinstance(st.targets[0], ast.Name) else None
+                rets = [src(r.value) for r in ast.walk(fn) if isinstance(r, ast.Return) and r.value is not None]
+                flows = set()
+                if var:
+                    for n in ast.walk(fn):
+                        if isinstance(n, ast.Call) and isinstance(n.func, ast.Attribute) and n.func.attr == "update" and n.args and src(n.args[0]) == var:
+                            flows.add(src(n.func.value))
+                    flows.add(var)
+                returned = [r for r in rets if r in flows]
+                dc = decorator_call(fn, "task")
+                scope = src(kwarg(dc, "cache_scope")) if dc is not None and kwarg(dc, "cache_scope") is not None else "CacheScope.BACKEND (default)"
+                # call sites that override the scope: `<task>.options(**D)` where D = {"cache_scope": ..., ...} built from another task's default
+                for q2, fn2 in m.funcs.items():
+                    for c2 in calls_in(fn2):
+                        if isinstance(c2.func, ast.Attribute) and c2.func.attr == "options" and src(c2.func.value) == q:
+                            for kw2 in c2.keywords:
+                                if kw2.arg == "cache_scope":
+                                    scope += f" | {src(kw2.value)} at {q2}"
+                                if kw2.arg is None and isinstance(kw2.value, ast.Name):
+                                    for n2 in ast.walk(fn2):
+                                        if isinstance(n2, (ast.Assign, ast.AnnAssign)) and src(n2.targets[0] if isinstance(n2, ast.Assign) else n2.target) == kw2.value.id and isinstance(n2.value, ast.Dict):
+                                            for k2, v2 in zip(n2.value.keys, n2.value.values):
+                                                if k2 is not None and const_str(k2) == "cache_scope":
+                                                    dflt = None
+                                                    for d2 in fn2.decorator_list:
+                                                        if isinstance(d2, ast.Call) and kwarg(d2, "cache_scope") is not None:
+                                                            dflt = src(kwarg(d2, "cache_scope"))
+                                                    scope = f"{dflt or src(v2)} (set by {q2} through .options(**{kw2.value.id}))"
+                cache_off = dc is not None and kwarg(dc, "cache") is not None and src(kwarg(dc, "cache")) == "False"
+                raises_on_error = any(isinstance(n, ast.Raise) and "error" in src(n) for n in ast.walk(fn))
+                if returned:
+                    r5.check(
+                        cache_off or ("BACKEND" not in scope) or raises_on_error,
+                        f"{m.rel}:{q}:error-in-cached-result",
+                        f"{q} returns the dict produced by {src(c.func)}(...) -- which carries a failed sub-workflow as {{'error': ...}} -- as its own successful result, and is cached with scope "
+                        f"{scope}: the job is recorded DONE, the failure is stored in the backend cache, and the next execution replays it without re-running the failed task "
+                        "(direct evaluation re-runs failed tasks)",
+                        m.rel,
+                        c.lineno,
+                    )
+    if ntask < 3:
+        raise AnalysisError(f"only {ntask} module-level @task functions found in scheduler.py", "scheduler.py")
